@@ -66,7 +66,7 @@ type refPath struct {
 	// SegLen) or the path more than 64 (6-bit CurrHF); no SCION path header can
 	// express the join.
 	Unencodable bool
-	key             string
+	key         string
 }
 
 func ifKey(ifs []refIf) string {
